@@ -243,3 +243,59 @@ func init() {
 	reg("os.LookupEnv", func(fr *frame, a []value) value { return tuple{"", fr.m.ts.False} })
 	_ = types.Typ
 }
+
+// sliceData is the result of unsafe.SliceData / unsafe.StringData.
+type sliceData struct {
+	s   []value
+	str value
+}
+
+func (m *Machine) sliceStr(s value, n int) value {
+	switch x := s.(type) {
+	case string:
+		return x[:n]
+	case *SymString:
+		return normStr(&SymString{x.b[:n]})
+	}
+	panic("sliceStr")
+}
+
+// sortSlice sorts an engine slice in place with a user less function
+// (insertion sort; less may be symbolic and then forks).
+func (m *Machine) sortSlice(fr *frame, s []value, less value) {
+	for i := 1; i < len(s); i++ {
+		for j := i; j > 0; j-- {
+			r := m.call(fr, nil, less, []value{m.mkInt(int64(j)), m.mkInt(int64(j - 1))})
+			if !m.branch(r.(*Term), "sort.less") {
+				break
+			}
+			s[j], s[j-1] = s[j-1], s[j]
+		}
+	}
+}
+
+func init() {
+	reg("internal/abi.NoEscape", func(fr *frame, a []value) value { return a[0] })
+	reg("internal/abi.Escape", func(fr *frame, a []value) value { return a[0] })
+	for _, n := range []string{"sort.Slice", "sort.SliceStable"} {
+		reg(n, func(fr *frame, a []value) value {
+			s, ok := a[0].(iface).v.([]value)
+			if !ok {
+				fr.m.unsupported("sort.Slice on non-slice")
+			}
+			fr.m.sortSlice(fr, s, a[1])
+			return nil
+		})
+	}
+	reg("sort.SliceIsSorted", func(fr *frame, a []value) value {
+		m := fr.m
+		s := a[0].(iface).v.([]value)
+		for i := len(s) - 1; i > 0; i-- {
+			r := m.call(fr, nil, a[1], []value{m.mkInt(int64(i)), m.mkInt(int64(i - 1))})
+			if m.branch(r.(*Term), "sort.less") {
+				return m.ts.False
+			}
+		}
+		return m.ts.True
+	})
+}
